@@ -582,7 +582,9 @@ def State.ransom (st : State) (i : Nat) (q : Sql) : State Ã— List (Option Nat) Ã
 def State.tick (st : State) : State :=
   let t := st.t + 1
   let st := { st with t := t, clients := st.clients.map clientTick }
-  let r := serverTick st.srv st.bk t st.ftpReq st.ftpResp
+  -- the path flags are evaluated when the transfer happens, i.e. after the server's own power countdown of this tick
+  -- (`serverTick` only transfers while the server node is ON, so only the backup host's side remains to be tested)
+  let r := serverTick st.srv st.bk t (st.bk.node.isOn && !st.blockFtpReq) (st.bk.node.isOn && !st.blockFtpResp)
   let st := { st with srv := r.1, bk := r.2 }
   { st with bk := backupTick st.bk }
 
